@@ -1,0 +1,43 @@
+//go:build verif
+
+package authority
+
+import (
+	"crypto/x509"
+	"net"
+	"net/url"
+
+	"github.com/smallstep/certificates/authority/internal/constraints"
+)
+
+// Verification hooks for property C05 (add-only, build tag `verif`).
+//
+// The name-constraints engine lives in an internal package that a module outside
+// this repository cannot import; these thin wrappers re-export it unchanged.
+
+// VerifConstraintsEngine is the internal name-constraints engine.
+type VerifConstraintsEngine = constraints.Engine
+
+// VerifConstraintError is the typed error the engine returns (mapped to 403).
+type VerifConstraintError = constraints.ConstraintError
+
+// VerifConstraintsNew calls constraints.New on the given chain.
+func VerifConstraintsNew(chain ...*x509.Certificate) *VerifConstraintsEngine {
+	return constraints.New(chain...)
+}
+
+// VerifConstraintsValidate calls Engine.Validate.
+func VerifConstraintsValidate(e *VerifConstraintsEngine, dnsNames []string, ips []net.IP, emails []string, uris []*url.URL) error {
+	return e.Validate(dnsNames, ips, emails, uris)
+}
+
+// VerifConstraintsEngine returns the engine the authority built at start-up
+// (nil when the authority has no intermediate certificates).
+func (a *Authority) VerifConstraintsEngine() *VerifConstraintsEngine {
+	return a.constraintsEngine
+}
+
+// VerifIsAllowedToSignX509Certificate calls the pre-signing gate of Sign.
+func (a *Authority) VerifIsAllowedToSignX509Certificate(cert *x509.Certificate) error {
+	return a.isAllowedToSignX509Certificate(cert)
+}
